@@ -47,6 +47,7 @@ func c14LinesDecl(ignore bool) *decl.Decl {
 			{Field: "M", Long: "map", Type: decl.TMapSI},
 			{Field: "B", Long: "bool", Type: decl.TBool},
 			{Field: "Ch", Long: "choice", Type: decl.TString, Choices: []string{"red", "green"}},
+			{Field: "Fn", Long: "fn", Type: decl.TFunc0},
 		}}
 		top.Groups = []*decl.Group{{Field: "Grp", Name: "Grp", Opts: []*decl.Opt{{Field: "G", Long: "gopt", Type: decl.TString}}}}
 		top.Cmds = []*decl.Cmd{{Field: "Cmd", Name: "cmd", Opts: []*decl.Opt{{Field: "C", Long: "copt", Type: decl.TString}}},
@@ -77,7 +78,7 @@ var c14Long = map[string]string{
 // line alphabet: valid entries, headers, noise, faults
 var c14Lines = []string{
 	"S = a", "I = 5", "L = x", "M = k:1", "B = true", `S = "q z"`, "G = g", "C = c",
-	"[Application Options]", "[Grp]", "[cmd]", "[UpCmd]", "U = u", "[db.migrate]", "D = d", "Ch = red", "Ch = blue", "# <70000>",
+	"[Application Options]", "[Grp]", "[cmd]", "[UpCmd]", "U = u", "[db.migrate]", "D = d", "Ch = red", "Ch = blue", "# <70000>", "Fn = x",
 	"", "   ", "; c", "# c = 1", "; <4095>", "# <4096>", "S = <4097>", "; <10000>", "S = <4092>", "S = <8188>",
 	"nokey", `S = "abc`, "[open", "[]", "Zzz = 1", "I = x", "M = k:", "[Nope]", "  L  =  y  ",
 }
@@ -124,6 +125,10 @@ func c14Run(d *decl.Decl, text string) (b *decl.Built, err error, pan interface{
 
 // c14Compare checks the real result against the model's outcome.
 func c14Compare(c *explore.Ctx, d *decl.Decl, b *decl.Built, out *ref.IniOutcome, err error, class string) {
+	if ie, ok := err.(*flags.IniError); ok && out.MayFault[int(ie.LineNumber)] {
+		c.Hit("value-for-a-callback-without-parameter-rejected")
+		return
+	}
 	if len(out.Faults) == 0 {
 		c.Hit("clean")
 		if err != nil {
@@ -264,7 +269,7 @@ func init() {
 		ShardDepth: 5,
 		Body:       body,
 		Rule: "(i) every byte string of length <= 6 (thorough: <= 7 without IgnoreUnknown) over {[ ] = \" : ; # space LF CR a \\ 0xFF} read into a declaration whose option, ini-name and group are reachable over that alphabet (map option a, group a, ini-name aa); " +
-			"(ii) every file of <= 3 (quick) / <= 4 (thorough) lines over 37 lines, and of 4 / 5 lines over the 28 of them that are short: 8 valid entries (scalar, int, slice, map, bool, quoted, group and command options), 3 headers, 8 noise lines (empty, blanks, ; and # comments, 4095/4096/10000-byte comments, a 4097-byte value) and 2 entries whose line is exactly one / two read buffers long (4096 / 8192 bytes), " +
+			"(ii) every file of <= 3 (quick) / <= 4 (thorough) lines over 38 lines, and of 4 / 5 lines over the 29 of them that are short: 8 valid entries (scalar, int, slice, map, bool, quoted, group and command options), a value given to a func() option (may be rejected with its line, must not panic), 3 headers, 8 noise lines (empty, blanks, ; and # comments, 4095/4096/10000-byte comments, a 4097-byte value) and 2 entries whose line is exactly one / two read buffers long (4096 / 8192 bytes), " +
 			"9 faults (no '=', bad quoting, open header, empty header, unknown option, unconvertible int, empty map value, unknown section, padded entry) x LF/CRLF x final newline present/absent; both with and without IgnoreUnknown; " +
 			"oracle: returns normally; reference reader: no fault => no error and the values the entries denote (noise and line ends change nothing); faults => the error is one of them, IniError carrying exactly its 1-based line or ErrUnknownGroup; the first syntax fault always wins; " +
 			"distinct = distinct (error class, fault list, assigned options)",
